@@ -104,7 +104,8 @@ func c10Universe() (py.Context, []c10Val, error) {
 		{"{}", py.NewStringDict(), false}, {"{'k': 1}", py.StringDict{"k": py.Int(1)}, false},
 		{"set()", py.NewSet(), false}, {"{1, 1.0, True}", py.NewSetFromItems([]py.Object{py.Int(1), py.Float(1), py.True}), false}, {"frozenset", py.NewFrozenSetFromItems([]py.Object{py.Int(1)}), false},
 		{"range(3)", &py.Range{Start: 0, Stop: 3, Step: 1, Length: 3}, false},
-		{"slice(1,2)", py.NewSlice(py.Int(1), py.Int(2), py.None), false}, {"slice(huge)", py.NewSlice(big1("-99999999999999999999"), big1("99999999999999999999"), py.Int(math.MinInt64)), false},
+		{"slice(1,2)", py.NewSlice(py.Int(1), py.Int(2), py.None), false}, {"slice((1,),b'a',1.0)", py.NewSlice(py.Tuple{py.Int(1)}, py.Bytes("a"), py.Float(1)), false},
+		{"slice((1,),b'a',1)", py.NewSlice(py.Tuple{py.Int(1)}, py.Bytes("a"), py.Int(1)), false}, {"slice(huge)", py.NewSlice(big1("-99999999999999999999"), big1("99999999999999999999"), py.Int(math.MinInt64)), false},
 		{"NotImplemented", py.NotImplemented, false}, {"Ellipsis", py.Ellipsis, false},
 		{"int", py.IntType, false}, {"str", py.StringType, false}, {"list", py.ListType, false}, {"type", py.TypeType, false}, {"KeyError", py.KeyError, false}, {"object", py.ObjectType, false},
 	}
@@ -249,6 +250,40 @@ func c10Callables() []c10Callable {
 				}
 				return func(args py.Tuple, k py.StringDict) (py.Object, error) { return py.Call(f, args, k) }, true
 			}, riskyName(a)})
+		}
+		// descriptors in the type's dictionary (properties such as function.__code__), applied to objects of every type:
+		// a property borrowed by another class (class G: c = type(f).__code__) hands its getter a foreign instance
+		for _, a := range attrs {
+			a := a
+			d, isDescr := v.obj.Type().Dict[a]
+			if !isDescr {
+				continue
+			}
+			if _, ok := d.(py.I__get__); !ok {
+				continue
+			}
+			out = append(out, c10Callable{tname + "." + a + "[descriptor]", func(ctx py.Context, vals []c10Val) (func(py.Tuple, py.StringDict) (py.Object, error), bool) {
+				recv := valByName(vals, vname)
+				d := recv.Type().Dict[a]
+				return func(args py.Tuple, k py.StringDict) (py.Object, error) {
+					switch len(args) {
+					case 1:
+						if g, ok := d.(py.I__get__); ok {
+							if _, err := g.M__get__(args[0], args[0].Type()); err != nil {
+								return nil, err
+							}
+						}
+						if x, ok := d.(py.I__delete__); ok {
+							return x.M__delete__(args[0])
+						}
+					case 2:
+						if x, ok := d.(py.I__set__); ok {
+							return x.M__set__(args[0], args[1])
+						}
+					}
+					return nil, py.ExceptionNewf(py.TypeError, "arity")
+				}, true
+			}, false})
 		}
 		// the value itself as a callable
 		out = append(out, c10Callable{"call " + vname, func(ctx py.Context, vals []c10Val) (func(py.Tuple, py.StringDict) (py.Object, error), bool) {
